@@ -397,7 +397,10 @@ fn suites_tree(id: &str, tier: Tier) -> Vec<Suite> {
             let mut trig = trigger_programs();
             trig.extend(plain(2));
             vec![
-                Suite { name: "core/command-api", host: HostKind::CoreCmd, programs: if q { plain(3) } else { plain(3) }, bounds: bounds(tier.pick(6, 8), 0, 0, 1, 2) },
+                // quick: the three-node terms one step shallower than the two-node ones, so that the tree
+                // is completed inside the wall cap on an idle machine instead of being cut at an unknown place
+                Suite { name: "core/command-api", host: HostKind::CoreCmd, programs: plain(3), bounds: bounds(tier.pick(5, 8), 0, 0, 1, 2) },
+                Suite { name: "core/command-api/2-nodes-deeper", host: HostKind::CoreCmd, programs: if q { plain(2) } else { vec![] }, bounds: bounds(6, 0, 0, 1, 2) },
                 Suite { name: "core/command-api/triggers", host: HostKind::CoreCmd, programs: trig.clone(), bounds: bounds(tier.pick(6, 9), 0, 0, 1, 2) },
                 Suite { name: "core/command-api/aborts", host: HostKind::CoreCmd, programs: with_abort(tier.pick(2, 3)), bounds: bounds(tier.pick(6, 7), tier.pick(1, 2), 0, 1, 2) },
                 Suite { name: "core/mixed-legacy+command", host: HostKind::CoreCmd, programs: mixed_programs(), bounds: bounds(tier.pick(6, 8), 0, 0, 1, 2) },
